@@ -225,11 +225,14 @@ def run_molecule_level(C, add):
     _cache_reset()
     fc = FeatureContainer()
     feats = set()
-    for k, li in enumerate(add):
-        contig, s, e, st = ls[li]
-        fc.addFeature(contig, s, e, f'f{k}', strand=st, data=(('id', f'f{k}'),))
-        feats.add((contig, s, e, f'f{k}', st))
-    fc.sort()
+    try:
+        for k, li in enumerate(add):
+            contig, s, e, st = ls[li]
+            fc.addFeature(contig, s, e, f'f{k}', strand=st, data=(('id', f'f{k}'),))
+            feats.add((contig, s, e, f'f{k}', st))
+        fc.sort()
+    except Exception as ex:
+        return [(f'round1:add-sort:exception:{type(ex).__name__}', repr(ex))], 0
     viol = {}
     n = 0
     for read, positions, desc in reads:
